@@ -16,7 +16,8 @@ TRUSTED_BASE = [
 LEVEL = ("Coq theorems (Props/C08.v), for EVERY amount (NaN, signed zeros, infinities, any decimal representation), every unit and both back-ends at once because the amount type is abstract: "
          "constructor/accessor round trip for every generated definition, amount*unit = unit*amount = new, normal forms of k*q, q*k, q/k (operand order, unit untouched), the dimensionless type's facts; "
          "for the current tree the instance laws and the wiring of operators to the translated templates are computed over every definition (main, astronomical, synthetic). "
-         "The templates are re-translated from the repository's own codegen() output on every run, so a changed body breaks a proof; the correspondence + oracle then look for a failing input.")
+         "The templates are re-translated from the repository's own codegen() output on every run, so a changed body breaks a proof; the correspondence + oracle then look for a failing input."
+         " Composed over whole programs (Props/Programs.v, axiom-free): for every amount type with exact arithmetic, any tree of constructions, conversions, sums, differences and scalings by numbers run through the translated kernels carries the statically determined unit and denotes exactly its abstract physical magnitude, and ratio / == / partial ordering of two results are the abstract ratio, equality and order (PROG_refines, PROG_ratio, PROG_eq, PROG_cmp; induction over the program); instantiated with an exact rational amount type on every predefined quantity with a reference unit (PROG_catalogue, PROG_not_vacuous).")
 LEVEL_NOTE = "Trusted: Coq kernel, translator rs2j+j2v (literal translation of the generated fn bodies), Macro/Inst.v (wiring, cross-checked by wiring_ok), the model of Rust struct/field semantics; no axioms."
 ASSUMPTIONS = [
     "Rust struct construction/field access and operator dispatch behave as the translated terms (validated by the correspondence run on every unit of every type, both back-ends)",
